@@ -54,6 +54,12 @@ def specRun (c : Cab) (s : SpecCab) : List CabOp → SpecCab
   | [] => s
   | op :: ops => specRun (c.step op) (specStep c s op) ops
 
+/-- a failed `alloc()` stores nothing and retires nothing -/
+def specRunX (c : Cab) (s : SpecCab) : List CabOpX → SpecCab
+  | [] => s
+  | .op o :: xs => specRunX (c.step o) (specStep c s o) xs
+  | .allocFail b :: xs => specRunX (c.allocThrow b) s xs
+
 /-- the tokens that currently resolve, one per occupied cell, in cell order -/
 def Cab.tokenAt (cells : List Cell) (k p : Nat) : Option Token :=
   match cells[p - k]? with
